@@ -26,6 +26,7 @@ public:
         bool expected(running_.load(std::memory_order_acquire));
         for (;;) {
             if (expected) { return false; }
+            YK_VP(k_cas, this, 1, 0);
             if (running_.compare_exchange_weak(expected, true,
                                                std::memory_order_acq_rel,
                                                std::memory_order_acquire)) {
